@@ -113,6 +113,8 @@ func vConcretisation(variant int) *vConc {
 			"A2": net.ParseIP("10.0.0.2").To4(),
 			"X1": net.ParseIP("192.168.1.1").To4(),
 			"F":  net.ParseIP("10.0.0.50").To4(),
+			"E0": {},             // no address at all
+			"M3": {10, 0, 0},     // malformed length
 		},
 		meta: map[string][]byte{
 			"m0": []byte("meta-zero"),
@@ -261,6 +263,13 @@ func (in *vInst) aliveMsg(name string, r vRec, inc int64) *alive {
 		Meta: in.c.meta[r.Meta], Vsn: v}
 }
 
+// bump raises the node's own incarnation counter to target with the code's own mutator
+func (in *vInst) bump(target uint32) {
+	if cur := in.m.incarnation.Load(); target > cur {
+		in.m.skipIncarnation(target - cur)
+	}
+}
+
 func (in *vInst) noteTimers() {
 	// remember every suspicion object so that a later cancelled one can be fired
 	in.m.nodeLock.RLock()
@@ -305,15 +314,14 @@ func (in *vInst) build(w vWorld, cfg vCfg) string {
 			switch r.State {
 			case "alive":
 				add(w.Now, 1, func() {
-					for int64(m.incarnation.Load()) < w.SelfInc && sr.Inc > int64(m.incarnation.Load()) {
-						m.nextIncarnation()
+					tgt, cnt := in.c.incMap(sr.Inc), in.c.incMap(w.SelfInc)
+					if cnt >= tgt {
+						in.bump(tgt)
 					}
-					if sr.Inc != 1 || sr.Meta != "m0" {
+					if tgt != 1 || sr.Meta != "m0" {
 						m.aliveNode(in.aliveMsg(self, sr, sr.Inc), nil, true)
 					}
-					for int64(m.incarnation.Load()) < w.SelfInc {
-						m.nextIncarnation()
-					}
+					in.bump(cnt)
 					if w.Leave {
 						m.leave.Store(1)
 					}
@@ -331,12 +339,10 @@ func (in *vInst) build(w vWorld, cfg vCfg) string {
 					from = "zz-other"
 				}
 				add(r.Changed, 1, func() {
-					if j != 1 || sr.Meta != "m0" {
+					if in.c.incMap(j) != 1 || sr.Meta != "m0" {
 						m.aliveNode(in.aliveMsg(self, sr, j), nil, true)
 					}
-					for int64(m.incarnation.Load()) < w.SelfInc {
-						m.nextIncarnation()
-					}
+					in.bump(in.c.incMap(w.SelfInc))
 					m.leave.Store(1)
 					m.deadNode(&dead{Incarnation: in.c.incMap(sr.Inc), Node: self, From: from})
 				})
@@ -346,9 +352,7 @@ func (in *vInst) build(w vWorld, cfg vCfg) string {
 				}
 				needReap = true
 				add(0, 1, func() {
-					for int64(m.incarnation.Load()) < w.SelfInc {
-						m.nextIncarnation()
-					}
+					in.bump(in.c.incMap(w.SelfInc))
 					m.leave.Store(1)
 					m.deadNode(&dead{Incarnation: 1, Node: self, From: self})
 				})
